@@ -482,6 +482,211 @@ mut("C15", "500-also-after-header-for-5xx", "logger", [("logger/httpd.go",
 			}""")])
 
 
+# ---- C06 / C07 / C08 / C14 (tasklane) -----------------------------------------------------
+TL = "tasklane/tasklane.go"
+mut("C06", "held-task-sent-twice", "tasklane", [(TL,
+ """			select {
+			case tl.blockingQueueList[index] <- task:
+			default:
+				verifPoint(tl.ctx, "queue.beforeBlockingOffer", index)""",
+ """			select {
+			case tl.blockingQueueList[index] <- task:
+				select {
+				case tl.universalQueue <- task:
+				default:
+				}
+			default:
+				verifPoint(tl.ctx, "queue.beforeBlockingOffer", index)""")])
+mut("C06", "enqueue-reports-timeout-when-full", "tasklane", [(TL,
+ """		case tl.bufferedQueueList[index] <- task:
+			return nil""",
+ """		case tl.bufferedQueueList[index] <- task:
+			if cap(tl.bufferedQueueList[index]) > 1 && len(tl.bufferedQueueList[index]) == cap(tl.bufferedQueueList[index]) {
+				return ErrTimeout
+			}
+			return nil""")])
+mut("C06", "worker-reruns-task-on-cancel", "tasklane", [(TL,
+ """				select {
+				case <-tl.ctx.Done():
+					return
+				case task = <-tl.blockingQueueList[index]:
+				case task = <-tl.universalQueue:
+				}""",
+ """				select {
+				case <-tl.ctx.Done():
+					if task == nil {
+						return
+					}
+				case task = <-tl.blockingQueueList[index]:
+				case task = <-tl.universalQueue:
+				}""")])
+mut("C06", "timeout-branch-also-enqueues", "tasklane", [(TL,
+ """		case <-time.After(tl.timeout):
+			return ErrTimeout""",
+ """		case <-time.After(tl.timeout):
+			select {
+			case tl.universalQueue <- task:
+			default:
+			}
+			return ErrTimeout""")])
+mut("C07", "queue-offer-without-done-case", "tasklane", [(TL,
+ """				select {
+				case <-tl.ctx.Done():
+					return
+				case tl.blockingQueueList[index] <- task:
+				case tl.universalQueue <- task:
+				}""",
+ """				select {
+				case tl.blockingQueueList[index] <- task:
+				case tl.universalQueue <- task:
+				}""")])
+mut("C07", "push-without-outer-done-check", "tasklane", [(TL,
+ """	verifPoint(tl.ctx, "push.enter", index)
+	select {
+	case <-tl.ctx.Done():
+		return tl.ctx.Err()
+	default:""",
+ """	verifPoint(tl.ctx, "push.enter", index)
+	select {
+	default:""")])
+mut("C07", "push-select-without-done-case", "tasklane", [(TL,
+ """		select {
+		case <-tl.ctx.Done():
+			return tl.ctx.Err()
+		case tl.bufferedQueueList[index] <- task:
+			return nil""",
+ """		select {
+		case tl.bufferedQueueList[index] <- task:
+			return nil""")])
+mut("C07", "wg-counts-only-workers", "tasklane", [(TL,
+ """	tl.wg.Add(laneSize * 2)""", """	tl.wg.Add(laneSize)"""),
+ (TL, """func (tl *TaskLane) startQueue(index int) {
+	defer tl.wg.Done()
+""", """func (tl *TaskLane) startQueue(index int) {
+""")])
+mut("C07", "worker-take-without-done-case", "tasklane", [(TL,
+ """				select {
+				case <-tl.ctx.Done():
+					return
+				case task = <-tl.blockingQueueList[index]:
+				case task = <-tl.universalQueue:
+				}""",
+ """				select {
+				case task = <-tl.blockingQueueList[index]:
+				case task = <-tl.universalQueue:
+				}""")])
+mut("C08", "queue-never-offers-universal", "tasklane", [(TL,
+ """				case tl.blockingQueueList[index] <- task:
+				case tl.universalQueue <- task:
+				}""",
+ """				case tl.blockingQueueList[index] <- task:
+				}""")])
+mut("C08", "worker-never-takes-universal", "tasklane", [(TL,
+ """				case task = <-tl.blockingQueueList[index]:
+				case task = <-tl.universalQueue:
+				}""",
+ """				case task = <-tl.blockingQueueList[index]:
+				}""")])
+mut("C08", "worker-universal-only-before-first-task", "tasklane", [(TL,
+ """				case task = <-tl.blockingQueueList[index]:
+				case task = <-tl.universalQueue:
+				}""",
+ """				case task = <-tl.blockingQueueList[index]:
+				case task = <-func() chan Task {
+					if task != nil {
+						return nil
+					}
+					return tl.universalQueue
+				}():
+				}""")])
+mut("C08", "extra-worker-per-lane", "tasklane", [(TL,
+ """	tl.wg.Add(laneSize * 2)
+	for i := 0; i < laneSize; i++ {
+		go tl.startQueue(i)
+		go tl.startWorker(i)
+	}""",
+ """	tl.wg.Add(laneSize*2 + 1)
+	for i := 0; i < laneSize; i++ {
+		go tl.startQueue(i)
+		go tl.startWorker(i)
+	}
+	go tl.startWorker(0)""")])
+mut("C14", "revert-fix-lastpanic-atomic", "tasklane", [(TL,
+ """	lastPanic       atomic.Pointer[any] // written by workers, read by Status()""", """	lastPanic       any"""),
+ (TL, """					tl.lastPanic.Store(&err)""", """					tl.lastPanic = err"""),
+ (TL, """	var lastPanic any
+	if p := tl.lastPanic.Load(); p != nil {
+		lastPanic = *p
+	}
+""", """	lastPanic := tl.lastPanic
+""")])
+mut("C14", "count-before-take", "tasklane", [(TL,
+ """		verifPoint(tl.ctx, "queue.loop", index)
+		select {
+		case <-tl.ctx.Done():
+			return
+		case task = <-tl.bufferedQueueList[index]:
+		}
+		verifPoint(tl.ctx, "queue.afterTake", index)
+		tl.blockingTaskCnt.Add(1)""",
+ """		verifPoint(tl.ctx, "queue.loop", index)
+		tl.blockingTaskCnt.Add(1)
+		select {
+		case <-tl.ctx.Done():
+			return
+		case task = <-tl.bufferedQueueList[index]:
+		}
+		verifPoint(tl.ctx, "queue.afterTake", index)""")])
+mut("C14", "decrement-before-handover", "tasklane", [(TL,
+ """		verifPoint(tl.ctx, "queue.afterCount", index)
+		select {""",
+ """		verifPoint(tl.ctx, "queue.afterCount", index)
+		tl.blockingTaskCnt.Add(^uint32(0))
+		select {"""),
+ (TL, """		verifPoint(tl.ctx, "queue.afterHandover", index)
+		tl.blockingTaskCnt.Add(^uint32(0)) // decrement blockingTaskCnt
+""", """		verifPoint(tl.ctx, "queue.afterHandover", index)
+""")])
+mut("C14", "recover-outside-loop", "tasklane", [(TL,
+ """	defer tl.wg.Done()
+
+	var task Task
+	for {
+		verifPoint(tl.ctx, "worker.loop", index)""",
+ """	defer tl.wg.Done()
+	defer func() {
+		if err := recover(); err != nil {
+			tl.lastPanic.Store(&err)
+		}
+	}()
+
+	var task Task
+	for {
+		verifPoint(tl.ctx, "worker.loop", index)"""),
+ (TL, """			defer func() {
+				if err := recover(); err != nil {
+					tl.lastPanic.Store(&err)
+				}
+			}()
+			task.Start()""", """			task.Start()""")])
+mut("C14", "lastpanic-stringified", "tasklane", [(TL,
+ """					tl.lastPanic.Store(&err)""",
+ """					if _, ok := err.(error); ok {
+						err = fmt.Sprint(err)
+					}
+					tl.lastPanic.Store(&err)"""),
+ (TL, """	"errors"
+""", """	"errors"
+	"fmt"
+""")])
+mut("C14", "pending-counts-len-of-blocking-queue", "tasklane", [(TL,
+ """	pending += int(tl.blockingTaskCnt.Load())""",
+ """	for i := 0; i < tl.laneSize; i++ {
+		pending += len(tl.blockingQueueList[i])
+	}
+	_ = tl.blockingTaskCnt.Load()""")])
+
+
 def run(cmd, cwd=None, timeout=900, repo=None):
     env = dict(ENV)
     if repo:
